@@ -61,7 +61,7 @@ META = {
  "C03": dict(
     engine="vh",
     design_ref="5.3",
-    technique="runtime monitor: offline-style ledger (created = released + discarded + held, exactly-once release, release only after a matching CONFIRM of the carrying fragment) evaluated online over update results, wire fragments and application callbacks in global event order",
+    technique="runtime monitor: offline-style ledger (created = released + discarded + held, exactly-once release, release only after a matching CONFIRM of the carrying fragment) evaluated online over update results, wire fragments and application callbacks in global event order; plus invariant-at-a-hook audit (H6) of the live event buffer under the database mutex (list links, slot accounting, counters recomputed from records)",
     text=("Exploration. Every update through the public database API is recorded with its UpdateInfo (unique, non-monotonic timestamps); every transmitted fragment is decoded with the reference codec and each event object is attributed to a ledger id "
           "(fidelity of index/value/flags/time incl. relative-time reconstruction, oldest-first order); every event_cleared callback must fall inside a begin/end_confirm bracket caused by a CONFIRM the harness sent for the fragment that carried exactly those ids; "
           "BufferState at every end_confirm must equal created-released-discarded per class and type; READ responses and unsolicited responses must carry a prefix of the reference selection over unreleased events (events carried by an unconfirmed response are offered again). "
@@ -71,7 +71,7 @@ META = {
  "C13": dict(
     engine="vh",
     design_ref="5.13",
-    technique="runtime monitor: IIN octets of every freshly built response compared with a ledger-derived reference (class bits, overflow, restart, broadcast, application flags) in global event order",
+    technique="runtime monitor: IIN octets of every freshly built response compared with a ledger-derived reference (class bits, overflow, restart, broadcast, application flags) in global event order; plus invariant-at-a-hook audit (H6) of the counters those bits are computed from against the buffer's records at every release of the database mutex",
     text=("Exploration. Same driver as C03 with a profile weighted to small per-type buffers, broadcasts (three confirm modes), restart-bit writes and application flag flips. For every solicited and unsolicited response built afresh: "
           "class k bit <=> a held class-k event exists that is not part of a response awaiting confirmation (the response's own events count as part of it); overflow set from a discard until a confirmation leaves every type below capacity; "
           "restart until a processed WRITE g80v1[7]=0 (across reconnects); broadcast from the broadcast_received callback until reported (mandatory: kept until a CONFIRM is sent, then the oracle is silent); need-time/local-control/device-trouble/config-corrupt mirror the mock application."),
